@@ -147,6 +147,8 @@ func Grid(opt GridOptions) []File {
 			{Disc: 2, Rec: &Record{Kind: Message, Name: "EdgeNothingM"}},
 			{Disc: 3, Rec: &Record{Kind: Struct, Name: "EdgeOne", Fields: []Field{{Name: "x", Type: Prim("uint8")}}}},
 			{Disc: 4, Rec: &Record{Kind: Struct, Name: "EdgeEndsStr", Fields: []Field{{Name: "x", Type: Prim("uint32")}, {Name: "s", Type: Prim("string")}}}},
+			{Disc: 5, Deprecated: true, Rec: &Record{Kind: Struct, Name: "EdgeOldS", Fields: []Field{{Name: "x", Type: Prim("uint16")}, {Name: "s", Type: Prim("string")}, {Name: "y", Type: Prim("uint8")}}}},
+			{Disc: 255, Deprecated: true, Rec: &Record{Kind: Message, Name: "EdgeOldM", Fields: []Field{{Name: "a", Index: 1, Type: Prim("uint32")}, {Name: "z", Index: 255, Type: Prim("string")}}}},
 		}},
 		// arrays and maps of a record that takes NO bytes on the wire: a count may exceed the bytes that follow it
 		&Record{Kind: Struct, Name: "EdgeEmpty"},
